@@ -109,8 +109,14 @@ struct Found {
 // worker
 // -------------------------------------------------------------------------------------------
 
+/// The engine's plan, optionally scaled by VERIF_PLAN_SCALE (used for the slow sanitizer build).
+fn scaled_plan(engine: &dyn Engine, prop: &str, tier: &str) -> Vec<(String, u64)> {
+    let scale: f64 = std::env::var("VERIF_PLAN_SCALE").ok().and_then(|s| s.parse().ok()).unwrap_or(1.0);
+    engine.plan(prop, tier).into_iter().map(|(s, n)| (s, if scale == 1.0 { n } else { ((n as f64 * scale) as u64).max(1) })).collect()
+}
+
 fn worker(engine: &dyn Engine, prop: &str, tier: &str, master: u64, start: u64, stride: u64) {
-    let plan = engine.plan(prop, tier);
+    let plan = scaled_plan(engine, prop, tier);
     let total: u64 = plan.iter().map(|p| p.1).sum();
     let out = std::io::stdout();
     let mut batch = Batch::default();
@@ -341,7 +347,7 @@ pub struct CheckOutcome {
 pub fn check(engine: &dyn Engine, prop: &str, tier: &str) -> i32 {
     let t0 = Instant::now();
     let master = master_seed();
-    let plan = engine.plan(prop, tier);
+    let plan = scaled_plan(engine, prop, tier);
     let total: u64 = plan.iter().map(|p| p.1).sum();
     if total == 0 {
         eprintln!("harness error: empty plan for {prop} {tier}");
